@@ -70,7 +70,9 @@ Definition serve_conn (p : proto) (m : mode) (q : list revt) (wq : list wev) (fq
 
 (* ---- accept loop (serve / serve_until), decision logic only ---- *)
 (* a connection handed to a task is described by the read script its transport will deliver *)
-Inductive setup := SetupService (script : list revt) | SetupReject | SetupErr (k : kind).
+(* SetupHang: the on_connected future of this connection never completes (a TLS handshake or hello byte that never
+   arrives): the accept loop is suspended inside it; only the abort signal of serve_until can still end serving *)
+Inductive setup := SetupService (script : list revt) | SetupReject | SetupErr (k : kind) | SetupHang.
 Inductive accept_ev := AConn (s : setup) | AAcceptErr (k : kind) | AAbort.
 Inductive serve_result := SrvErr (k : kind) | SrvAborted | SrvListening.
 
@@ -81,6 +83,7 @@ Fixpoint serve (evs : list accept_ev) : list (list revt) * serve_result :=
   | AConn (SetupService q) :: evs' => let '(l, r) := serve evs' in (q :: l, r)
   | AConn SetupReject :: evs' => serve evs'
   | AConn (SetupErr k) :: _ => ([], SrvErr k)
+  | AConn SetupHang :: evs' => ([], if existsb (fun e => match e with AAbort => true | _ => false end) evs' then SrvAborted else SrvListening)
   | AAcceptErr k :: _ => ([], SrvErr k)
   | AAbort :: _ => ([], SrvAborted)
   end.
